@@ -627,6 +627,82 @@ fn walk(conv: &Converter, m: Option<&Model>) -> Vec<(String, String)> {
     bad
 }
 
+/// Fraction settings of the layers, as far as the documentation is unambiguous: the levels `all`, `metric`/`imperial`
+/// and `quantity` are those of the LAST layer that sets them; a unit with exactly one per-unit entry gets that entry
+/// with unset fields filled from quantity, then system, then all; a unit without an entry and with at most one level
+/// set gets that level; unset fields take the documented defaults (off, 5 %, denominator 4, no whole limit) with the
+/// documented clamps. Observed through Quantity::try_fraction on probe values, against Number::new_approx (C12).
+fn fractions_probe(conv: &Converter, layers: &[UnitsFile], judged: &mut u64, skipped: &mut u64) -> Vec<(String, String)> {
+    let mut bad = Vec::new();
+    let frs: Vec<&Fractions> = layers.iter().filter_map(|l| l.fractions.as_ref()).collect();
+    let (mut all, mut metric, mut imperial) = (None, None, None);
+    let mut quantity: HashMap<PQ, FractionsConfigHelper> = HashMap::new();
+    for f in &frs {
+        if let Some(c) = f.all {
+            all = Some(c.get());
+        }
+        if let Some(c) = f.metric {
+            metric = Some(c.get());
+        }
+        if let Some(c) = f.imperial {
+            imperial = Some(c.get());
+        }
+        for (q, c) in &f.quantity {
+            quantity.insert(*q, c.get());
+        }
+    }
+    let or = |a: FractionsConfigHelper, b: FractionsConfigHelper| FractionsConfigHelper {
+        enabled: a.enabled.or(b.enabled),
+        accuracy: a.accuracy.or(b.accuracy),
+        max_denominator: a.max_denominator.or(b.max_denominator),
+        max_whole: a.max_whole.or(b.max_whole),
+    };
+    for u in conv.all_units() {
+        let entries: Vec<FractionsConfigHelper> = frs.iter().flat_map(|f| f.unit.iter()).filter(|(k, _)| conv.find_unit(k).is_some_and(|f| f.symbol() == u.symbol())).map(|(_, c)| c.get()).collect();
+        let levels: Vec<FractionsConfigHelper> = [
+            quantity.get(&u.physical_quantity).copied(),
+            match u.system {
+                Some(System::Metric) => metric,
+                Some(System::Imperial) => imperial,
+                None => None,
+            },
+            all,
+        ]
+        .into_iter()
+        .flatten()
+        .collect();
+        let eff = match (entries.len(), levels.len()) {
+            (1, _) => levels.iter().fold(entries[0], |acc, l| or(acc, *l)),
+            (0, 0) => FractionsConfigHelper::default(),
+            (0, 1) => levels[0],
+            _ => {
+                *skipped += 1;
+                continue;
+            }
+        };
+        let enabled = eff.enabled.unwrap_or(false);
+        let acc = eff.accuracy.unwrap_or(0.05).clamp(0.0, 1.0);
+        let den = eff.max_denominator.unwrap_or(4).clamp(1, 16);
+        let whole = eff.max_whole.unwrap_or(u32::MAX);
+        for v in [0.5, 1.5, 0.125, 0.3, 5.5, 7.25, 1.0 / 3.0, 0.0625, 100.5, 3.0] {
+            let mut q = Quantity::new(Value::Number(Number::Regular(v)), Some(u.symbol().to_string()));
+            let changed = q.try_fraction(conv);
+            let want = if enabled { Number::new_approx(v, acc, den, whole) } else { None };
+            *judged += 1;
+            let got = format!("{:?}", q.value());
+            let ok = match want {
+                None => !changed && got == format!("{:?}", Value::Number(Number::Regular(v))),
+                Some(n) => changed && got == format!("{:?}", Value::Number(n)),
+            };
+            if !ok {
+                bad.push(("fraction_settings_differ_from_layers".into(), format!("unit {:?} ({} {:?}): the layers give enabled={enabled} accuracy={acc} max_denominator={den} max_whole={whole}, so try_fraction({v}) should give {want:?}; it returned {changed} and left {got}", u.symbol(), u.physical_quantity, u.system)));
+                break;
+            }
+        }
+    }
+    bad
+}
+
 fn exercise(conv: &Converter) -> Result<u64, crate::core::PanicRec> {
     crate::core::guarded(|| {
         let mut n = 0u64;
@@ -694,6 +770,18 @@ pub fn check_layers(ctx: &mut Ctx, layers: &[UnitsFile], planted: &[&'static str
                 let cause = if reason.contains("is not a unit of") { "inconsistent_layers_accepted|best_unit_of_other_quantity".to_string() } else { format!("inconsistent_layers_accepted|{}", reason.split(':').next().unwrap_or("").split(' ').take(3).collect::<Vec<_>>().join("_")) };
                 bad.push((cause, format!("the layers are inconsistent ({reason}) but a converter was returned")));
             }
+            if m.is_ok() {
+                let (mut judged, mut skipped) = (0u64, 0u64);
+                match crate::core::guarded(|| fractions_probe(&conv, layers, &mut judged, &mut skipped)) {
+                    Ok(b) => bad.extend(b),
+                    Err(p) => ctx.panic_violation(&case, "try_fraction", p),
+                }
+                ctx.count_n("fraction_probes_judged", judged);
+                ctx.count_n("fraction_units_skipped_as_ambiguous", skipped);
+                if layers.iter().filter(|l| l.fractions.is_some()).count() >= 2 {
+                    ctx.count("built_with_two_or_more_fraction_layers");
+                }
+            }
             match exercise(&conv) {
                 Ok(n) => {
                     ctx.count_n("conversions_exercised", n);
@@ -751,6 +839,38 @@ fn shipped(ctx: &mut Ctx) {
                 ctx.count("default_equals_units_toml");
             }
             check_layers(ctx, &[file.clone()], &[], "units.toml");
+            // user layers written as TOML text on top of the bundled file (the way the format is used in practice)
+            const USER_LAYERS: &[&[&str]] = &[
+                &["[fractions]\nimperial = false\n"],
+                &["[fractions.quantity]\nmass = false\n"],
+                &["[fractions]\nall = { enabled = true, max_denominator = 8 }\n"],
+                &["[fractions]\nmetric = true\n[fractions.unit]\ng = { max_whole = 3 }\n", "[fractions]\nmetric = false\n"],
+                &["[fractions.unit]\nlb = { max_denominator = 2 }\n", "[fractions]\nimperial = { enabled = true, accuracy = 0.5 }\n"],
+                &["[extend.units]\nkilogram = { aliases = [\"kilo\", \"kilos\"] }\n", "[extend.units]\ngram = { names = [\"gramo\", \"gramos\"] }\n"],
+                &["[extend]\nprecedence = \"override\"\n[extend.units]\nminute = { names = [\"minuto\", \"minutos\"], symbols = [\"mn\"] }\n"],
+                &["[extend.units]\ntsp = { ratio = 0.02 }\n"],
+                &["[[quantity]]\nquantity = \"temperature\"\n[quantity.units]\nmetric = [{ names = [\"kelvin\"], symbols = [\"K\"], ratio = 1, expand_si = true }]\n", "[extend.units]\nK = { difference = 0.15, aliases = [\"kelvins\"] }\n"],
+                &["[[quantity]]\nquantity = \"mass\"\nbest = { metric = [\"mg\", \"g\", \"kg\"], imperial = [\"oz\", \"lb\"] }\n"],
+                &["[[quantity]]\nquantity = \"mass\"\nbest = { metric = [\"mg\", \"g\", \"kg\"], imperial = [\"oz\", \"lb\", \"tsp\"] }\n"],
+                &["[[quantity]]\nquantity = \"time\"\nbest = [\"ml\"]\n"],
+            ];
+            for (k, texts) in USER_LAYERS.iter().enumerate() {
+                let mut layers = vec![file.clone()];
+                let mut ok = true;
+                for t in texts.iter() {
+                    match toml::from_str::<UnitsFile>(t) {
+                        Ok(l) => layers.push(l),
+                        Err(e) => {
+                            ctx.harness_errors.push(format!("user layer {k} does not deserialize: {e}"));
+                            ok = false;
+                        }
+                    }
+                }
+                if ok {
+                    check_layers(ctx, &layers, &[], &format!("units.toml+user_layer_{k}"));
+                    ctx.count("shipped_plus_user_layers");
+                }
+            }
             // spanish layer on top of the bundled one
             if let Ok(t) = std::fs::read_to_string("/repo/units/spanish.toml") {
                 match toml::from_str::<UnitsFile>(&t) {
